@@ -318,6 +318,151 @@ fn ke3_case_flat(ctx: &[u8], idu_explicit: bool) {
     core::mem::forget(ke1s);
 }
 
+/// "OPAQUEv1-" || I2OSP(len(ctx),2) || ctx || id_u-part || l1 || id_s-part || l2 || tail  (the iterator arguments taken as
+/// given: the length prefixes of the identities are part of what the callers pass)
+fn raw_preamble(ctx: &[u8], idu: &[u8], l1: &[u8], ids: &[u8], l2: &[u8], tail: &[u8]) -> sp::SH {
+    sp::SH::new().chain(b"OPAQUEv1-").chain(&sp::i2osp2(ctx.len())).chain(ctx).chain(idu).chain(l1).chain(ids).chain(l2).chain(tail)
+}
+
+/// S10-quick: generate_ke3 with one-byte iterator arguments (order of the transcript parts, which key goes into which
+/// Diffie-Hellman, exact MAC check, client MAC over the transcript extended by the *received* MAC) — the full-size
+/// transcript is the stretch obligation s10p
+fn ke3_small_case() {
+    let parts = any_bytes::<4>(); // id_u, l1, id_s, l2: one distinct symbolic byte each
+    let ctx = any_bytes::<1>();
+    let ke2 = any_bytes::<42>();
+    let ke1st = any_bytes::<33>();
+    let spk = any_key();
+    let csk = any_key();
+    let Ok(ke2m) = Ke2Message::<MHash, G241>::deserialize(&ke2) else { return };
+    let Ok(ke1s) = Ke1State::<G241>::deserialize(&ke1st) else { return };
+    let spkb = [PK_TAG, spk];
+    let r = <TripleDh as KeyExchange<MHash, G241>>::generate_ke3(
+        core::iter::once(&parts[3..4]),
+        ke2m,
+        &ke1s,
+        core::iter::once(&parts[1..2]),
+        pk_of(spk),
+        sk_of(csk),
+        core::iter::once(&parts[0..1]),
+        core::iter::once(&parts[2..3]),
+        &ctx,
+    );
+    let pre = raw_preamble(&ctx, &parts[0..1], &parts[1..2], &parts[2..3], &parts[3..4], &ke2[0..34]);
+    let w = spec::client_ke(pre, ke1st[0], csk, &ke2[32..34], &spkb, &ke2[34..42]);
+    let mac_ok = eq_bytes(&w.expected_server_mac, &ke2[34..42]);
+    match r {
+        Ok(res) => {
+            check!(mac_ok, "client accepts only a server MAC over its own view of the whole transcript");
+            check!(eq_bytes(&res.0, &w.session_key), "client session key per RFC 9807 6.4.3");
+            check!(eq_bytes(&res.1.serialize(), &w.client_mac), "client MAC == MAC(Km3, Hash(preamble || server_mac))");
+            cover!(true, "accept");
+            core::mem::forget(res);
+        }
+        Err(e) => {
+            check!(!mac_ok, "the genuine server MAC is accepted");
+            check!(matches!(e, ProtocolError::InvalidLoginError), "a wrong server MAC is reported as InvalidLoginError");
+            cover!(true, "reject");
+        }
+    }
+    core::mem::forget(ke1s);
+}
+
+fn ke2_small_case() {
+    let parts = any_bytes::<4>(); // id_u, l1, id_s, l2
+    let ctx = any_bytes::<1>();
+    let ke1 = any_bytes::<34>();
+    let cpk = any_key();
+    let ssk = any_key();
+    let mut tape = Tape::symbolic();
+    let Ok(ke1m) = Ke1Message::<G241>::deserialize(&ke1) else { return };
+    let cpkb = [PK_TAG, cpk];
+    let r = <TripleDh as KeyExchange<MHash, G241>>::generate_ke2::<MOprf, _, PrivateKey<G241>>(
+        &mut tape,
+        core::iter::once(&parts[1..2]),
+        core::iter::once(&parts[3..4]),
+        ke1m,
+        pk_of(cpk),
+        sk_of(ssk),
+        core::iter::once(&parts[0..1]),
+        core::iter::once(&parts[2..3]),
+        &ctx,
+    );
+    check!(r.is_ok(), "server key-exchange step succeeds");
+    let Ok(res) = r else { return };
+    let st = res.0.serialize();
+    let msg = res.1.serialize();
+    check!(tape.pos == 33 && !tape.overrun, "exactly one key seed and one nonce are drawn");
+    let seed_first = eq_bytes(&msg[0..32], &tape.buf[1..33]);
+    let nonce_first = eq_bytes(&msg[0..32], &tape.buf[0..32]);
+    check!(seed_first || nonce_first, "server nonce is 32 fresh bytes from the caller's RNG, disjoint from the key seed");
+    let seed_byte = if seed_first { tape.buf[0] } else { tape.buf[32] };
+    let esk = spec::derive_dh_keypair(&[seed_byte]);
+    check!(eq_bytes(&msg[32..34], &spec::ke_public(esk)), "server ephemeral key = DeriveDiffieHellmanKeyPair(fresh seed)");
+    let pre = raw_preamble(&ctx, &parts[0..1], &parts[1..2], &parts[2..3], &parts[3..4], &msg[0..34]);
+    let w = spec::server_ke(pre, esk, ssk, &ke1[32..34], &cpkb);
+    check!(eq_bytes(&msg[34..42], &w.server_mac), "server MAC == MAC(Km2, Hash(preamble)) over context, identities, request, response, nonce, key share");
+    check!(eq_bytes(&st[0..8], &w.km3), "pending state holds Km3");
+    check!(eq_bytes(&st[8..16], &w.transcript2), "pending state holds Hash(preamble || server_mac)");
+    check!(eq_bytes(&st[16..24], &w.session_key), "pending state holds the session key");
+    cover!(true, "reached");
+    core::mem::forget(res);
+}
+
+/// S10-mac: exactness of the client's server-MAC check for a *fixed* transcript and fixed keys: only the received MAC (and the
+/// hash) is symbolic. Ok <=> MAC == MAC(Km2, Hash(preamble)) for every 8-byte MAC and every compression function.
+/// (Message bytes are concrete so that only hash states are symbolic: this is what fits the quick tier; the fully symbolic
+/// transcript is s10p / s10q.)
+fn ke3_mac_exact_case() {
+    let mac = any_bytes::<8>();
+    let mut ke2 = [0u8; 42];
+    let mut i = 0;
+    while i < 32 {
+        ke2[i] = 0xa0 + (i as u8 % 7);
+        i += 1;
+    }
+    ke2[32] = PK_TAG;
+    ke2[33] = 0x21;
+    put(&mut ke2[34..42], &mac);
+    let mut ke1st = [0x11u8; 33];
+    ke1st[0] = 0x33;
+    let parts = [0x61u8, 0x62, 0x63, 0x64];
+    let ctx = [0x7au8];
+    let (spk, csk) = (0x45u8, 0x17u8);
+    let Ok(ke2m) = Ke2Message::<MHash, G241>::deserialize(&ke2) else { return };
+    let Ok(ke1s) = Ke1State::<G241>::deserialize(&ke1st) else { return };
+    let spkb = [PK_TAG, spk];
+    let r = <TripleDh as KeyExchange<MHash, G241>>::generate_ke3(
+        core::iter::once(&parts[3..4]),
+        ke2m,
+        &ke1s,
+        core::iter::once(&parts[1..2]),
+        pk_of(spk),
+        sk_of(csk),
+        core::iter::once(&parts[0..1]),
+        core::iter::once(&parts[2..3]),
+        &ctx,
+    );
+    let pre = raw_preamble(&ctx, &parts[0..1], &parts[1..2], &parts[2..3], &parts[3..4], &ke2[0..34]);
+    let w = spec::client_ke(pre, ke1st[0], csk, &ke2[32..34], &spkb, &mac);
+    let mac_ok = eq_bytes(&w.expected_server_mac, &mac);
+    match r {
+        Ok(res) => {
+            check!(mac_ok, "client accepts only the exact server MAC");
+            check!(eq_bytes(&res.0, &w.session_key), "client session key per RFC 9807 6.4.3");
+            check!(eq_bytes(&res.1.serialize(), &w.client_mac), "client MAC == MAC(Km3, Hash(preamble || server_mac))");
+            cover!(true, "accept");
+            core::mem::forget(res);
+        }
+        Err(e) => {
+            check!(!mac_ok, "the genuine server MAC is accepted");
+            check!(matches!(e, ProtocolError::InvalidLoginError), "a wrong server MAC is reported as InvalidLoginError");
+            cover!(true, "reject");
+        }
+    }
+    core::mem::forget(ke1s);
+}
+
 harnesses! {
     fn s11_derive_3dh_keys [unwind = 36] { derive_case_direct(); }
 
@@ -390,4 +535,10 @@ harnesses! {
     fn s10p_generate_ke2_ctx0_default_ids [unwind = 80] { ke2_case_flat(&[], false); }
     #[cfg_attr(kani, kani::stub(crate::key_exchange::tripledh::derive_3dh_keys, crate::key_exchange::tripledh::verif_kani_tripledh::stub_derive_3dh_keys))]
     fn s10p_generate_ke2_ctx2_explicit_idu [unwind = 80] { let c = any_bytes::<2>(); ke2_case_flat(&c, true); }
+    #[cfg_attr(kani, kani::stub(crate::key_exchange::tripledh::derive_3dh_keys, crate::key_exchange::tripledh::verif_kani_tripledh::stub_derive_3dh_keys))]
+    fn s10q_generate_ke3_small [unwind = 46] { ke3_small_case(); }
+    #[cfg_attr(kani, kani::stub(crate::key_exchange::tripledh::derive_3dh_keys, crate::key_exchange::tripledh::verif_kani_tripledh::stub_derive_3dh_keys))]
+    fn s10q_generate_ke2_small [unwind = 46] { ke2_small_case(); }
+    #[cfg_attr(kani, kani::stub(crate::key_exchange::tripledh::derive_3dh_keys, crate::key_exchange::tripledh::verif_kani_tripledh::stub_derive_3dh_keys))]
+    fn s10m_generate_ke3_mac_exact [unwind = 46] { ke3_mac_exact_case(); }
 }
